@@ -35,7 +35,7 @@ func mk(class string, kvs ...string) rec {
 		f[k] = v
 		if bare {
 			parts = append(parts, k+"="+v)
-		} else if (k == "name" || k == "srcname" || k == "target") && strings.ContainsAny(v, " \t\"") {
+		} else if (k == "name" || k == "srcname" || k == "target" || k == "profile") && strings.ContainsAny(v, " \t\"") {
 			parts = append(parts, k+"="+strings.ToUpper(hex.EncodeToString([]byte(v)))) // the kernel's spelling of an untrusted string
 		} else {
 			parts = append(parts, k+`="`+v+`"`)
@@ -223,6 +223,16 @@ func main() {
 		mk("userns", "apparmor", "DENIED", "operation", "userns_create", "class", "namespace", "info", "Userns create restricted - failed to find unprivileged_userns profile", "=error", "-13", "profile", "prog", "comm", "prog", "requested", "userns_create", "denied", "userns_create"),
 		mk("rlimit", "apparmor", "DENIED", "operation", "setrlimit", "class", "rlimits", "profile", "prog", "comm", "prog", "rlimit", "nofile", "=value", "1024"),
 		mk("change_onexec", "apparmor", "DENIED", "operation", "change_onexec", "class", "file", "info", "label not found", "=error", "-2", "profile", "prog", "name", "other", "comm", "prog", "target", "other"),
+	}
+	// a link whose target has a blank, a profile whose name has a blank (both hex-encoded by the kernel)
+	n++
+	w.Encode(process(fmt.Sprintf("link-blank-target-%d", n), fileRec("DENIED", "link", "/srv/data/l1", "l", "1000", "1000", "target", "/srv/data/link target")))
+	{
+		r := fileRec("DENIED", "open", "/srv/data/p1", "r", "1000", "1000")
+		r.Fields["profile"] = "foo bar"
+		r.Line = strings.Replace(r.Line, `profile="prog"`, "profile="+strings.ToUpper(hex.EncodeToString([]byte("foo bar"))), 1)
+		n++
+		w.Encode(process(fmt.Sprintf("file-blank-profile-%d", n), r))
 	}
 	others = append(others,
 		mk("mount", "apparmor", "DENIED", "operation", "mount", "class", "mount", "profile", "prog", "name", "/media/USB DISK/", "comm", "prog", "fstype", "vfat", "srcname", "/dev/sdb1", "flags", "rw, nosuid"),
